@@ -204,8 +204,6 @@ def run_case(case, ctx, wrong_value=None):
                 elif r == "h.insert":
                     expect_raise(show, lambda: h.insert(w))
                 elif r == "db.insert_multiple":
-                    if not isinstance(w, (list, tuple, str, bytes, dict)) and w is not None and not isinstance(w, Obj):
-                        pass
                     expect_raise(show, lambda: db.insert_multiple([w]))
                 else:
                     tgt = db if r.startswith("db") else h
